@@ -67,9 +67,13 @@ def correspondence(ctx):
                 b.prev = prev
                 prev = b.hash()
         plain = GL.layout(r, coin, blocks, callback=cb, huge=(i % 5 == 0))
+        # --verify must make no difference between the plaintext and the obfuscated directory either (generated chains are consistent
+        # from height 1 on; the genesis hash of a generated block 0 is not the coin's, so verified runs start at 1)
+        if i % 3 == 1 and len(blocks) > 2:
+            plain.verify, plain.start = True, 1
         xs = []
         for k in range(2):
-            x = K.Scenario(coin=coin, callback=cb)
+            x = K.Scenario(coin=coin, callback=cb, start=plain.start, verify=plain.verify)
             x.kvs, x.files, x.extra_files = plain.kvs, plain.files, plain.extra_files
             x.xorkey = key_of(r)
             x.meta = dict(plain.meta, i=i, k=k, keylen=len(x.xorkey), zero=not any(x.xorkey))
